@@ -7,9 +7,10 @@ from props import PROPS, NOT_APPLICABLE, LEVEL_TEXT
 VERIF = os.path.dirname(os.path.dirname(os.path.abspath(__file__)))
 hooks = subprocess.run(["git", "-C", "/repo", "log", "--format=%H %s", "--grep=^verif"], stdout=subprocess.PIPE, text=True).stdout.strip().splitlines()
 all_ids = [json.loads(l)["id"] for l in open(os.path.join(VERIF, "properties.jsonl"))]
+READY = set(open(os.path.join(VERIF, "lib", "ready.txt")).read().split())
 checks = []
 for pid in all_ids:
-    if pid not in PROPS:
+    if pid not in PROPS or pid not in READY:
         continue
     s = PROPS[pid]
     checks.append({
@@ -24,7 +25,7 @@ for pid in all_ids:
         "technique": s.get("technique", "runtime monitoring: oracle over observed executions of the real code"),
     })
 na = [{"property_id": pid, "reason": NOT_APPLICABLE.get(pid, "check not built yet (work in progress; see DESIGN.md §10 for the order of implementation)")}
-      for pid in all_ids if pid not in PROPS]
+      for pid in all_ids if pid not in PROPS or pid not in READY]
 m = {
     "version": 1,
     "setup_cmd": "./setup.sh",
